@@ -467,6 +467,7 @@ fn conc_items(tier: Tier) -> Vec<crate::dxrun::DxItem> {
             let params = json!({"part": "pool-lock-concurrency", "order": o.iter().map(|e| format!("{e:?}")).collect::<Vec<_>>(), "min_idle": min_idle});
             let mut it = crate::dxrun::DxItem::new(params, make_conc(o.clone(), min_idle), if o.len() <= 3 { 1 } else { 0 });
             it.exec.long_yield = 3;
+            it.exec.quiesce = true;
             v.push(it);
         }
     }
